@@ -103,6 +103,33 @@ def cases(tier, rng):
             cs.append(mk(qt, codec, dom, "ver %d %d none" % (rng.choice([0, 1282, 4294967295]), rng.choice([0, 35, 36, 1295])), "status", 0, "ok"))
             cs.append(mk(qt, codec, dom, "opt none", "status", 0, "ok"))
             cs.append(mk(qt, codec, dom, "pkt none %d 0 0 #" % rng.choice([0, 65535]), "status", 0, "ok"))
+    # every length of tunnel domain: how much of a name-carrying record (CNAME, MX, SRV) is left for data depends on it, label dots and
+    # tag characters included - a response of several full records under each
+    def dom_of(L):
+        lab = b"abcdefghijklmnopqrstuvwxy"
+        out = b""
+        while len(out) < L:
+            out += lab[:min(len(lab), L - len(out))]
+            if len(out) < L - 1:
+                out += b"."
+        return out[:L - 1] + b"z" if out.endswith(b".") else out
+    for qt in (5, 15, 33):
+        for L in range(3, 141):
+            if not thorough and qt != 5 and L % 3:
+                continue
+            n = rng.choice([300, 420])
+            cs.append(mk(qt, 84, dom_of(L), "frag none %d %s" % (n, hx(content("cycle", n, rng))), "domain-length", n, "cycle"))
+            cs[-1]["key"] = (qt, "domlen", L)
+    # AAAA answers of 256 records and more (14 octets each behind a two-octet order tag)
+    for codec in ((84, 86, 83) if thorough else (84, 86)):
+        for n in (list(range(2235, 2250)) + [3200, 5000] if codec == 84 else list(range(3120, 3150)) + [5000]):
+            cs.append(mk(28, codec, b"example.org", "frag none %d %s" % (n, hx(content("cycle", n, rng))), "tag-capacity", n, "cycle"))
+            cs[-1]["key"] = (28, codec, "tagcap", n)
+    # TXT answers around one and two full strings (the first string also carries the order tag), octet by octet
+    for codec in (82, 84):
+        for n in (list(range(225, 265)) + list(range(480, 520))) if (thorough or codec == 82) else range(140, 165):
+            cs.append(mk(16, codec, b"example.org", "frag none %d %s" % (n, hx(content("rand", n, rng))), "txt-string-border", n, "rand"))
+            cs[-1]["key"] = (16, codec, "txtborder", n)
     if thorough:
         for qt in (10, 65000):
             for codec in (84, 88, 82):
